@@ -260,6 +260,7 @@ impl<'a, 's, const N: usize> Runner<'a, 's, N> {
                         match w.get(2).copied().unwrap_or("drop") {
                             "keep" => c.set_keep(),
                             "retry" => c.set_keep_retry(),
+                            "unsent" => c.set_keep_unsent(),
                             _ => {}
                         }
                         drop(c);
@@ -497,9 +498,10 @@ fn gen_case<const N: usize>(id: u64, r: &mut Rng, thorough: bool, out: &mut Out)
                     let sid: u32 = rest.split_whitespace().next().and_then(|x| x.parse().ok()).unwrap_or(0);
                     step(run, out, format!("q {}", sid));
                     if r.chance(1, 2) {
-                        let mode = match r.below(10) {
+                        let mode = match r.below(12) {
                             0..=5 => "keep",
                             6..=8 => "retry",
+                            9..=10 => "unsent",
                             _ => "drop",
                         };
                         step(run, out, format!("fin {} {}", sid, mode));
